@@ -9,19 +9,19 @@ ALL = ["C%02d" % i for i in range(1, 19)]
 MODEL_NOTE = "Trusted: SQLite 3.49 (bundled, math functions on) as the executing engine incl. its NULL ordering and binary collation; the reference interpreter's reading of the PRQL book (harness/src/model/eval.rs); results the book leaves open are counted as ambiguous and not judged. Recorded findings are excluded from the default generator by construction and re-exercised by probes and hazard sweeps (known_findings.json). Engines other than SQLite are not executed."
 CHECKS = {
  "C01": ("model",
-  "proptest tape-decoded program generation + differential execution on SQLite against an independent reference interpreter; Thorough tier: plus a coverage-guided libFuzzer campaign (cargo-fuzz, fork mode) over the same oracle (target tape_c01: the fuzzer mutates the generator's choice tape)",
+  "proptest tape-decoded program generation + differential execution on SQLite against an independent reference interpreter; Thorough tier: plus a coverage-guided libFuzzer campaign (cargo-fuzz, fork mode) over the same oracle (target tape_c01: the fuzzer mutates the generator's choice tape) + dedicated generators for set operations over relations of unknown columns and for grouped `sort | take 1` under the DISTINCT ON dialects (structural ORDER BY oracle)",
   "Each generated relational-core program is compiled (sqlite, generic), executed on an in-process SQLite over a generated instance and compared - values, multiplicities, and order where a sort is in effect - with a reference interpreter written from the PRQL book. Sampling: holds on everything explored, shrunk counterexample otherwise.",
   MODEL_NOTE, "DESIGN.md §2, §3 C01"),
  "C05": ("sqlbind",
-  "proptest program generation + comparison of the resolver's final frame with the binder-computed / prepared-statement column list (all 12 dialects)",
+  "proptest program generation + comparison of the resolver's final frame with the binder-computed / prepared-statement column list (all 12 dialects) + exclusion lists over two relations, case-variant column names through split shapes",
   "The emitted SQL of every dialect is re-parsed and its output column list computed by an independent binder (expanding *, t.*, EXCLUDE, CTEs, set operations); for sqlite/generic also the prepared statement's columns. Arity and every named column of the resolver's final frame (RQ relation.columns) must agree; the branches of a set operation must have equal arity. Exclusions over wildcard frames (joins of two wildcard relations, select !{..}) are decided strictly under duckdb / snowflake / bigquery.",
   "Trusted: sqlparser 0.60 as per-dialect parser, the binder in harness/src/sqlbind.rs, RQ relation.columns as the frame. Recorded findings (dedup, helper leak, order) are attributed by exact predicates.", "DESIGN.md §3 C05"),
  "C06": ("model",
-  "proptest base-program generation + tape-chosen rewrites (let/into extraction, function abstraction, filter split/merge, identity insertion, module move) with a metamorphic oracle on SQLite results",
+  "proptest base-program generation + tape-chosen rewrites (let/into extraction, function abstraction, filter split/merge, identity insertion, module move) with a metamorphic oracle on SQLite results + exhaustive prefix x continuation x dialect table: naming a prefix that ends in a take must not change the LIMIT / OFFSET / FETCH / TOP clauses (8 dialects)",
   "Both the base and the rewritten program are compiled and executed on SQLite; their results must be equal as multisets (columns aligned by name). Reference-free.",
   MODEL_NOTE + " Rewrites other than filter split/merge and identity insertion may leave the language's scoping rules; a rejected rewrite is counted, not judged.", "DESIGN.md §3 C06"),
  "C07": ("sqlbind",
-  "proptest program generation x 12 dialects, each emitted text re-parsed with sqlparser's dialect parser and bound by an independent scope checker",
+  "proptest program generation x 12 dialects, each emitted text re-parsed with sqlparser's dialect parser and bound by an independent scope checker + dialect capability lint (T-SQL set operators), DISTINCT ON left-most ORDER BY rule, column arrays / set-operation tails",
   "Every accepted generated program (plus dialect-sensitive extras) is compiled for all 12 dialects; each text must parse as exactly one query under sqlparser's parser for that dialect and every table, qualifier and column must resolve in the scope of its clause; set operations must have equal arity.",
   "Trusted: sqlparser 0.60 per dialect (known gaps excluded per dialect and construct: ClickHouse infix DIV, Redshift zero-column SELECT, AnsiDialect stricter than Generic) and the binder. Engine semantics other than SQLite's are not executed.", "DESIGN.md §3 C07"),
  "C08": ("api",
@@ -29,7 +29,7 @@ CHECKS = {
   "A value is generated first and spelled in a documented form; the value SQLite returns must be the value, and under every dialect's tokenizer the statement must have the token structure it has with an innocuous literal, with the string token unescaping to the value. f-strings built from fragments, let-bound constants, a literal passed through a function parameter and a column must evaluate to the concatenation (SQLite) and their CONCAT / || pieces must concatenate to it under every dialect's tokenizer.",
   "Trusted: SQLite as executor (its decimal parsing within 1e-14), sqlparser's per-dialect tokenizer as the model of each engine's lexical rules.", "DESIGN.md §3 C08"),
  "C09": ("sqlbind",
-  "proptest program generation with a hazardous identifier pool + differential execution on SQLite + case-sensitive binding under 12 dialects",
+  "proptest program generation with a hazardous identifier pool + differential execution on SQLite + case-sensitive binding under 12 dialects + dialect-specific reserved words (Redshift) must be quoted under that dialect",
   "Tables, let-tables, aliases and columns get hazardous names (keywords, spaces, quotes, mixed case, non-ASCII, leading digits, table_N, _expr_N); rows are compared with the reference interpreter on SQLite tables created with exactly those names, and the SQL of every dialect must bind case-sensitively against them. A second generator joins chains of relations with hazardous names / aliases, some repeated without alias so that the compiler invents aliases; marker columns decide which relation a qualified column came from.",
   MODEL_NOTE + " Case folding of engines other than SQLite is not executed.", "DESIGN.md §3 C09"),
  "C10": ("api",
@@ -49,11 +49,11 @@ CHECKS = {
   "Each returned error must have a reason, a span inside the source (character offsets), a location equal to the span's line/column and a rendered message quoting that line; replacing ASCII padding before the fault by multi-byte text of equal character length must not move span or location.",
   "Lexer-class faults are strict under multi-byte padding; parser/resolver-class faults under multi-byte padding are the recorded byte-offset finding. Faults inside f-/s-string placeholders (with escape sequences around) are included; the span of `Unknown name X` must cover X. Multi-file projects are not generated.", "DESIGN.md §3 C13"),
  "C02": ("model",
-  "exhaustive (parent, child, side) operator table + proptest random typed expression trees, each evaluated by SQLite over a cross-product value table against a reference scalar evaluator of the intended tree",
+  "exhaustive (parent, child, side) operator table + proptest random typed expression trees, each evaluated by SQLite over a cross-product value table against a reference scalar evaluator of the intended tree + the same trees under ten more dialects executed on SQLite whenever SQLite prepares the text + a shared-operand mode (right operand derived as a column and referenced twice)",
   "Every type-correct (parent operator, child operator, left|right) combination (exhaustive within that table) and random typed trees to depth 5 are printed with the parentheses the documented table requires, compiled for sqlite/generic, evaluated by SQLite on all 675 operand combinations of the value domain and compared per row with the reference evaluator.",
   MODEL_NOTE + " The printer is independent of prqlc's formatter; a parser mis-binding therefore shows as a value difference.", "DESIGN.md §3 C02"),
  "C03": ("model",
-  "proptest sort/take-biased program generation + differential execution (tie-class sequence oracle) + metamorphic slice invariant",
+  "proptest sort/take-biased program generation + differential execution (tie-class sequence oracle) + metamorphic slice invariant + DISTINCT ON order oracle for grouped `sort | take 1` under postgres / duckdb / clickhouse / redshift (14 contexts)",
   "Sort-biased programs are executed on SQLite and the row sequence is compared with the reference order as a sequence of tie classes; additionally `P | take a..b` must equal rows a..b of P's own result for total orders (reference-free).",
   MODEL_NOTE, "DESIGN.md §3 C03"),
  "C04": ("model",
@@ -73,7 +73,7 @@ CHECKS = {
   "The RQ of every accepted generated program (all constructs enabled) is checked for unique definition, def-before-use and visibility of column ids, declared-before-use table ids, table-reference columns, From..Select pipeline shape and arity, is_aggregation consistency.",
   "Trusted: the JSON form of RelationalQuery. Sort keys only need def-before-use (the resolver carries sorts past Selects by design; calibrated on the repository's queries). Two recorded findings with exact violation-text predicates.", "DESIGN.md §3 C16"),
  "C18": ("api",
-  "proptest program generation x exhaustive option-by-header matrix, differential oracle between the option and header paths",
+  "proptest program generation x exhaustive option-by-header matrix, differential oracle between the option and header paths + the staged entry point with explicit main paths",
   "For every generated program the complete matrix option in {none, 12 dialects} x header in {absent, sql.any, 12 dialects, 5 unknown names + 6 of 169 near-miss names (all 169 enumerated once)} is compiled and the documented precedence (option, then header, then generic; unknown is an error; resolver acceptance independent of the header) is checked.",
   "The matrix is exhaustive per program, programs are sampled. Differences must persist over repeated compilation (compilation is not deterministic).", "DESIGN.md §3 C18"),
  "C17": ("lexenum",
